@@ -6,7 +6,8 @@
    the statements transfer to executions in which no intermediate value overflows
    (-a and -b for the most negative value; q * _x[1-i], q * _y[1-i] in ext_gcd;
    value * a, value * v_value and value + v_value in SpVecFP).  This side condition is not
-   discharged here. *)
+   discharged here; it is turned into theorems (bounds on every intermediate value of a traced
+   restatement of the models) in Properties_C18_overflow.v. *)
 From Coq Require Import ZArith List Bool Znumtheory Sorted.
 From Parmcb Require Import FpModel FpProofs.
 Import ListNotations.
